@@ -24,7 +24,7 @@ type c13Case struct {
 func init() {
 	engine.Register(&engine.Check{
 		ID: "C13", Level: "exploration",
-		Rule: "every sequence (order matters to the scan) of 1..5 (quick) / 1..6 (thorough) points on the 3x3 grid and (thorough) every set of <=6 points on the 4x4 grid; layouts XY/XYZ/XYM/XYZM with a unique tag in the extra ordinates of every input point; the >50-point path: each small input padded to 51, 52 and 60 points with copies of one of its own points, with all of its own points in rotation, and with a 4x4 filler grid; plus a 64-point block with every pair of outliers from a half-integer ring around it; ConvexHull (MultiPoint) and ConvexHullFlat. Oracle = strict monotone-chain hull in rational arithmetic: result kind (Point / 2-point LineString / Polygon) from the number of distinct, non-collinear inputs; vertex set = exact extreme points; each vertex bit-equal to an input coordinate incl. tags; ring closed, one orientation for all inputs, no collinear vertex; input slice incl. spare capacity unchanged. distinct_nontrivial = distinct inputs with >=2 distinct points",
+		Rule: "every sequence (order matters to the scan) of 1..5 (quick) / 1..6 (thorough) points on the 3x3 grid and (thorough) every set of <=6 points on the 4x4 grid; layouts XY/XYZ/XYM/XYZM with a unique tag in the extra ordinates of every input point; the >50-point path: each small input padded to 51, 52 and 60 points with copies of one of its own points, with all of its own points in rotation, and with a 4x4 filler grid; plus 51..200-point inputs on lattices from 5x5 (maximally degenerate) to 2^20; plus a 64-point block with every pair of outliers from a half-integer ring around it; ConvexHull (MultiPoint) and ConvexHullFlat. Oracle = strict monotone-chain hull in rational arithmetic: result kind (Point / 2-point LineString / Polygon) from the number of distinct, non-collinear inputs; vertex set = exact extreme points; each vertex bit-equal to an input coordinate incl. tags; ring closed, one orientation for all inputs, no collinear vertex; input slice incl. spare capacity unchanged. distinct_nontrivial = distinct inputs with >=2 distinct points",
 		Run:    c13Run,
 		Replay: func(c *engine.Ctx, kind string, raw json.RawMessage) { c13Exec(c, decodeCase[c13Case](raw)) },
 		Assumptions: []string{"integer / half-integer grid inputs (all predicates exact)"},
@@ -296,6 +296,31 @@ func c13Run(c *engine.Ctx) {
 			two := append(append([]ref.F{}, one...), ref.F(b[0]), ref.F(b[1]))
 			c13Exec(c, c13Case{Pts: two, Layout: geom.XY, Via: "flat"})
 		}
+	})
+	// larger inputs (up to 200 points) on lattices from maximally degenerate (5x5) to 2^20
+	type latJob struct{ n, m, a, b int }
+	var lj []latJob
+	for _, n := range []int{51, 60, 100, 200} {
+		for _, m := range []int{5, 37, 1009, 1<<20 - 3} {
+			for k, ab := range [][2]int{{1, 1}, {7919, 104729}, {3, 5}, {12345, 1}, {2, 1}, {999983, 314159}, {17, 4}, {1, 0}} {
+				if !c.Thorough() && k%2 == 1 && n != 200 {
+					continue
+				}
+				lj = append(lj, latJob{n, m, ab[0], ab[1]})
+			}
+		}
+	}
+	c.Note("lattice_inputs", len(lj))
+	c.Parallel(len(lj), func(i int) {
+		j := lj[i]
+		var pts []ref.F
+		for k := 0; k < j.n; k++ {
+			x := (k*j.a + k*k*(i%3)) % j.m
+			y := (k*j.b + 7*(k/3)) % j.m
+			pts = append(pts, ref.F(x), ref.F(y))
+		}
+		c13Exec(c, c13Case{Pts: pts, Layout: layouts[i%4], Via: "flat"})
+		c13Exec(c, c13Case{Pts: pts, Layout: layouts[(i+1)%4], Via: "multipoint"})
 	})
 	if c.Thorough() {
 		// every set of <= 6 points on the 4x4 grid, in lexicographic and reversed order
